@@ -630,7 +630,7 @@ def run(rep, tier, seed, replay=None):
     with common.Scratch() as tmp:
         info = common.std_static(rep, 'C10', GEN_GROUPS, AGREE, tmp)
         quick = tier == 'quick'
-        n_bez, n_arc, n_path = (450, 200, 260) if quick else (5000, 1600, 3000)
+        n_bez, n_arc, n_path = (600, 240, 400) if quick else (12000, 4000, 8000)
         lost = [k for k in info['untranslated'] if k.startswith('gen_bez2poly')]
         if info['agree_failed'] or lost:
             n_bez *= 3; n_arc *= 2; n_path *= 2
